@@ -27,3 +27,14 @@ static inline int pre_verif_f32_compute_offset(a3u_t indices, a3u_t strides) { r
 static inline int post_verif_f32_compute_offset(a3u_t indices, a3u_t strides, unsigned long ret) { return post_verif_compute_offset(sv_of_a3u(indices), sv_of_a3u(strides), ret); }
 static inline int pre_verif_m32_compute_offset(a3u_t indices, sv_t strides) { return pre_verif_compute_offset(sv_of_a3u(indices), strides); }
 static inline int post_verif_m32_compute_offset(a3u_t indices, sv_t strides, unsigned long ret) { return post_verif_compute_offset(sv_of_a3u(indices), strides, ret); }
+/* kind D (std::vector operands): literally the predicates of kind B */
+static inline int pre_verif_d_stride(sv_t shape, unsigned long k) { return pre_verif_stride(shape, k); }
+static inline int post_verif_d_stride(sv_t shape, unsigned long k, unsigned long ret) { return post_verif_stride(shape, k, ret); }
+static inline int pre_verif_d_compute_strides(sv_t shape) { return pre_verif_compute_strides(shape); }
+static inline int post_verif_d_compute_strides(sv_t shape, sv_t ret) { return post_verif_compute_strides(shape, ret); }
+static inline int pre_verif_d_compute_offset(sv_t indices, sv_t strides) { return pre_verif_compute_offset(indices, strides); }
+static inline int post_verif_d_compute_offset(sv_t indices, sv_t strides, unsigned long ret) { return post_verif_compute_offset(indices, strides, ret); }
+static inline int pre_verif_d_compute_indices3(unsigned long offset, sv_t shape, sv_t strides) { return pre_verif_compute_indices3(offset, shape, strides); }
+static inline int post_verif_d_compute_indices3(unsigned long offset, sv_t shape, sv_t strides, sv_t ret) { return post_verif_compute_indices3(offset, shape, strides, ret); }
+static inline int pre_verif_d_product(sv_t shape) { return pre_verif_product(shape); }
+static inline int post_verif_d_product(sv_t shape, unsigned long ret) { return post_verif_product(shape, ret); }
